@@ -544,7 +544,7 @@ impl Prop for C11 {
     }
 
     fn exhaustive_desc(_tier: Tier) -> String {
-        "for 12 small streams (single frames with escape / zero / 0x1b tails, frame + noise + frame, broken frame + frame): one fault of each kind {WouldBlock, Interrupted, Other} at every inter-byte position x 7 front-end configurations".into()
+        "for 12 small streams (single frames with escape / zero / 0x1b tails, frame + noise + frame, broken frame + frame): one fault of each kind {WouldBlock, Interrupted, Other} at every inter-byte position x 9 front-end configurations".into()
     }
 
     fn exhaustive(_tier: Tier, shard: usize, nshards: usize, f: &mut dyn FnMut(&Input) -> bool) {
